@@ -7,7 +7,7 @@
      #t <dump with the n flag>   the tree held by slot t0 at this point (taken from a first run of the script on libyang)
      val t0 c0 <opts> t2         validate_all on the current tree   -> V0 <dump> # <net changes>   or  VE
      implicit t0 c0 <opts> t2    implicit_all                        -> I0 <dump> # <net changes>
-     print t0 x <opts>           wd_print_forest of the current tree -> P<opts> <printed nodes> R=<equal to rfc_view_forest>
+     print t0 x|j <opts>         wd_print_forest of the current tree -> P[J]<opts> <printed node instances + tags> W= R=<equal to rfc_view_forest>
      #q                          properties of the current tree      -> Q N=<normalb> ...
    every other command is skipped. Answers are joined by " | ". *)
 let starts s p = String.length s >= String.length p && String.sub s 0 (String.length p) = p
@@ -206,7 +206,8 @@ let run (f : string list) : string =
                       emit (Printf.sprintf "I0 %s # %s" (print_dump_new !sch !nt g) (if ds = [] then "-" else changes_text !sch !nt d));
                       cur := g
                   | Err e -> emit "IFUEL"; dead := true)
-             | ["print"; "t0"; "x"; o] ->
+             | ["print"; "t0"; ("x" | "j" as fmt); o] ->
+                 (* XML and JSON printers share lyd_node_should_print and the tag predicate: one selection for both *)
                  let opts = int_of_string o in
                  let ke = opts land 4 <> 0 in
                  let p = wd_print_forest !sch (mode_of opts) ke !cur in
@@ -217,7 +218,7 @@ let run (f : string list) : string =
                      Printf.sprintf " W=%s%s R=%s" (b2s w) (if w then "" else ":" ^ wd_reasons !sch !cur)
                        (b2s (forest_eqb p (rfc_view_forest !sch (mode_of opts) false !cur)))
                    end in
-                 emit (Printf.sprintf "P%d %s%s" opts (printed_text !sch !nt p) chk)
+                 emit (Printf.sprintf "P%s%d %s%s" (if fmt = "j" then "J" else "") opts (printed_text !sch !nt p) chk)
              | _ -> ()
            end) rest;
          String.concat " | " (List.rev !out)
